@@ -777,3 +777,67 @@ Proof.
           parse_raw_render_full_pipe, parse_raw_render_full.
   split; reflexivity.
 Qed.
+
+(* ------------------------------------------------------------------ *)
+(* in(..) is the OR of its members                                     *)
+(* ------------------------------------------------------------------ *)
+Lemma den_in_expr : forall v es e1, den v (in_expr e1 es) = existsb (den v) (e1 :: es).
+Proof.
+  intros v. unfold in_expr. induction es as [|e es IH]; intros e1; simpl.
+  - rewrite orb_false_r. reflexivity.
+  - rewrite IH. simpl. rewrite orb_assoc. reflexivity.
+Qed.
+
+Lemma paren_render0_sub : forall e d rest,
+  SubOk d (paren (render 0 e) ++ rest) (tree_of e, rest).
+Proof.
+  intros e d rest. destruct (render_all e) as [_ [_ H0]]. unfold paren.
+  change ((TLP :: render 0 e ++ [TRP]) ++ rest) with (TLP :: ((render 0 e ++ [TRP]) ++ rest)).
+  rewrite <- app_assoc. change ([TRP] ++ rest) with (TRP :: rest).
+  apply SubOk_lp. apply FilOk_start. apply H0. apply LoopOk_rp. apply st0_join.
+Qed.
+
+Lemma parse_raw_paren_min : forall e, parse_raw (paren (render_min e)) = Ok (tree_of e).
+Proof.
+  intros e. unfold parse_raw, render_min.
+  assert (HF : FilOk 0 (paren (render 0 e)) (tree_of e, [])).
+  { apply FilOk_start. exists (tree_of e), []. split.
+    - rewrite <- (app_nil_r (paren (render 0 e))). apply paren_render0_sub.
+    - apply LoopOk_nil. reflexivity. }
+  rewrite (FilOk_fuel_for _ _ _ HF). reflexivity.
+Qed.
+
+Lemma existsb_den_finish : forall v l,
+  existsb (den v) l = existsb (fun e => eval v (finish (tree_of e))) l.
+Proof.
+  intros v. induction l as [|e l IH]; simpl; [reflexivity|].
+  destruct (propagate_not_sound _ (tree_of_no_nand e)) as [He _].
+  rewrite He, tree_of_den, IH. reflexivity.
+Qed.
+
+Lemma in_is_or_of_elements : forall e1 es, exists t,
+  parse (in_toks e1 es) = Ok t /\
+  forall v, eval v t = existsb (fun e => eval v (finish (tree_of e))) (e1 :: es)
+            /\ (forall e, parse (render_min e) = Ok (finish (tree_of e))).
+Proof.
+  intros e1 es. exists (finish (tree_of (in_expr e1 es))). split.
+  - unfold parse, in_toks. rewrite parse_raw_paren_min. reflexivity.
+  - intros v. split.
+    + destruct (propagate_not_sound _ (tree_of_no_nand (in_expr e1 es))) as [He _].
+      rewrite He, tree_of_den, den_in_expr.
+      apply existsb_den_finish.
+    + intros e. unfold parse. rewrite parse_raw_render_min. reflexivity.
+Qed.
+
+
+Lemma render0_fold_or : forall es x,
+  render 0 (fold_left EOr es x) = render 0 x ++ flat_map (fun e => TOr :: render 1 e) es.
+Proof.
+  induction es as [|e es IH]; intros x; simpl.
+  - rewrite app_nil_r. reflexivity.
+  - rewrite IH. simpl. rewrite <- app_assoc. reflexivity.
+Qed.
+
+Lemma in_toks_shape : forall e1 es,
+  in_toks e1 es = TLP :: (render_min e1 ++ flat_map (fun e => TOr :: render 1 e) es) ++ [TRP].
+Proof. intros e1 es. unfold in_toks, paren, render_min, in_expr. rewrite render0_fold_or. reflexivity. Qed.
